@@ -39,7 +39,9 @@ pub fn run_child(cfg: &Cfg, spec: &ShardSpec, n: u64, f: &dyn Fn(u64, &mut Acc))
     while i < n {
         let _ = wal.seek(std::io::SeekFrom::Start(0));
         let _ = wal.write_all(format!("{:020}\n", i).as_bytes());
-        f(i, &mut acc);
+        if let Err(p) = crate::util::panics::catch(|| f(i, &mut acc)) {
+            acc.inconclusive(format!("harness panicked in case {}: {}", i, p.0));
+        }
         i += spec.of;
     }
     let _ = wal.seek(std::io::SeekFrom::Start(0));
